@@ -159,6 +159,9 @@ fn small_domain() -> Vec<Val> {
     for &z in &amts {
         v.push(Val::Naked(z));
         v.push(Val::ClassAmt(AssetClass::Naked, z));
+        v.push(Val::ClassAmt(AssetClass::Named(vec![]), z));
+        v.push(Val::ClassAmt(AssetClass::Defined(vec![], TOK_A.1.to_vec()), z));
+        v.push(Val::ClassAmt(AssetClass::Defined(vec![], vec![]), z));
         v.push(Val::Asset(None, None, z));
         v.push(Val::Named(vec![], z));
         v.push(Val::Defined(vec![], vec![], z));
@@ -233,23 +236,10 @@ fn rand_val(r: &mut Rng, depth: u32) -> Val {
         4 => {
             let c = match r.below(3) {
                 0 => AssetClass::Naked,
-                1 => AssetClass::Named({
-                    let mut b = rand_bytes(r);
-                    if b.is_empty() {
-                        b.push(7)
-                    }
-                    b
-                }),
-                _ => AssetClass::Defined(
-                    {
-                        let mut b = rand_bytes(r);
-                        if b.is_empty() {
-                            b.push(9)
-                        }
-                        b
-                    },
-                    rand_bytes(r),
-                ),
+                // hand-made classes, with the empty policies and names the other constructors
+                // normalise away
+                1 => AssetClass::Named(if r.chance(1, 4) { vec![] } else { rand_bytes(r) }),
+                _ => AssetClass::Defined(if r.chance(1, 4) { vec![] } else { rand_bytes(r) }, rand_bytes(r)),
             };
             Val::ClassAmt(c, rand_amt(r))
         }
